@@ -1,7 +1,7 @@
 --------------------------- MODULE Trace_PromExport ---------------------------
 (* code -> spec (and the judging half of spec -> code): validates what real        *)
 (* scrapes of the real exporter exposed against PromModel.  Lines:                 *)
-(*   New{sc,opts,res,ases,bounds,scopes} fresh exporter + provider (family cache empty)        *)
+(*   New{sc,opts,res,ases,bounds,qbounds,scopes,mark}  fresh exporter + provider (cache empty) *)
 (*   Env{insts, streams}                 instruments created so far and the SDK's own          *)
 (*                                       cumulative view (Reader.Collect of the same exporter) *)
 (*   Scrape{via, obs}                    one scrape (direct Collect or registry Gather) taken  *)
@@ -19,7 +19,7 @@ EXTENDS PromModel, TraceKit
 VARIABLES l, env, streams, caches, nbad
 vars == <<l, env, streams, caches, nbad>>
 
-NoEnv == [o |-> <<>>, res |-> <<>>, insts |-> <<>>, ases |-> <<>>, bounds |-> <<>>, scopes |-> <<>>]
+NoEnv == [o |-> <<>>, res |-> <<>>, insts |-> <<>>, ases |-> <<>>, bounds |-> <<>>, qbounds |-> <<>>, scopes |-> <<>>, mark |-> TRUE]
 
 PermSeqs(S) == {f \in [1..Cardinality(S) -> S] : Range(f) = S}
 Scopes(sts) == {sts[i].scope : i \in 1..Len(sts)}
@@ -58,7 +58,7 @@ Init == l = 1 /\ env = NoEnv /\ streams = <<>> /\ caches = {{}} /\ nbad = 0
 
 TNew == /\ l <= Len(Trace) /\ Trace[l].ev = "New"
         /\ env' = [NoEnv EXCEPT !.o = Trace[l].opts, !.res = Trace[l].res, !.ases = Trace[l].ases, !.bounds = Trace[l].bounds,
-                                 !.scopes = Trace[l].scopes]
+                                 !.scopes = Trace[l].scopes, !.qbounds = Trace[l].qbounds, !.mark = Trace[l].mark]
         /\ streams' = <<>> /\ caches' = {{}} /\ l' = l + 1 /\ UNCHANGED nbad
 
 TEnv == /\ l <= Len(Trace) /\ Trace[l].ev = "Env"
